@@ -87,6 +87,22 @@ func genC04Request(g *G, u, sink *Account) *Op {
 	}
 	i := g.Pick("c04/dir", 2)
 	in, out := p.PoolAssets[i].Token, p.PoolAssets[1-i].Token
+	if g.Int("c04/bydenom", 0, 4) == 0 {
+		// stated by denoms only (the chain chooses the route)
+		if exactIn {
+			amt := g.ModestAmount("c04/amt", in.Amount)
+			est := estimateOut(p, in.Denom, out.Denom, amt)
+			g.H.Labels["c04-by-denom-requests"]++
+			return &Op{Signer: u, Kind: "c04.swap_by_denom_in", Msg: &ammtypes.MsgSwapByDenom{Sender: u.Addr.String(), Amount: sdk.NewCoin(in.Denom, amt),
+				MinAmount: sdk.NewCoin(out.Denom, limitAround(g, est, false)), MaxAmount: sdk.NewCoin(out.Denom, sdkmath.ZeroInt()), DenomIn: in.Denom, DenomOut: out.Denom, Recipient: rcpt}}
+		}
+		amt := g.ModestAmount("c04/amt", out.Amount)
+		est := estimateIn(p, in.Denom, out.Denom, amt)
+		g.H.Labels["c04-by-denom-requests"]++
+		// (the handler wants the maximum denominated in the OUT denom; its amount is the cap on the input)
+		return &Op{Signer: u, Kind: "c04.swap_by_denom_out", Msg: &ammtypes.MsgSwapByDenom{Sender: u.Addr.String(), Amount: sdk.NewCoin(out.Denom, amt),
+			MinAmount: sdk.NewCoin(out.Denom, sdkmath.ZeroInt()), MaxAmount: sdk.NewCoin(out.Denom, limitAround(g, est, true)), DenomIn: in.Denom, DenomOut: out.Denom, Recipient: rcpt}}
+	}
 	if exactIn {
 		amt := g.ModestAmount("c04/amt", in.Amount)
 		est := estimateOut(p, in.Denom, out.Denom, amt)
@@ -174,6 +190,21 @@ func limitAround(g *G, est sdkmath.Int, isMax bool) sdkmath.Int {
 
 func parseSwapReq(w *World, tx *TxRecord, idx int) *swapReq {
 	switch m := tx.Msg.(type) {
+	case *ammtypes.MsgSwapByDenom:
+		// the same request stated by denoms; the chain picks the route, so every other funded denom may be an
+		// intermediate one
+		r := &swapReq{Requester: tx.Signer, Sender: m.Sender, Recipient: m.Recipient, InDenom: m.DenomIn, OutDenom: m.DenomOut, Amount: m.Amount.Amount, TxIndex: idx, Accepted: tx.Code == 0}
+		if m.Amount.Denom == m.DenomIn {
+			r.ExactIn, r.Limit = true, m.MinAmount.Amount
+		} else {
+			r.ExactIn, r.Limit = false, m.MaxAmount.Amount
+		}
+		for _, d := range w.Scenario.Denoms {
+			if d != m.DenomIn && d != m.DenomOut {
+				r.Mids = append(r.Mids, d)
+			}
+		}
+		return r
 	case *ammtypes.MsgSwapExactAmountIn:
 		r := &swapReq{Requester: tx.Signer, Sender: m.Sender, Recipient: m.Recipient, ExactIn: true, InDenom: m.TokenIn.Denom,
 			OutDenom: m.Routes[len(m.Routes)-1].TokenOutDenom, Amount: m.TokenIn.Amount, Limit: m.TokenOutMinAmount, TxIndex: idx, Accepted: tx.Code == 0}
